@@ -10,7 +10,7 @@ PID = "C10"
 ANCHORS = ["scores.py:Scores.cm", "scores.py:Scores._threshold_at_ratio", "scores.py:Scores._invert_increasing_function", "scores.py:pointwise_cm",
            "metrics.py:tpr", "metrics.py:topr", "cm.py:ConfusionMatrix.__init__"]
 RAISES_ARE_VIOLATIONS = True
-DECIDING = {"M-state": 60000, "M-shape": 20000, "R-hist": 8000}
+DECIDING = {"M-state": 174728, "M-shape": 86654, "R-hist": 4047}
 THOROUGH_EXTRA = ["W2"]
 RULE = (
     "M-state wraps every public query of Scores/GroupScores (cm, 12 rates, 12 threshold_at_*, threshold_at_metric, eer, auc, swap, "
